@@ -29,12 +29,12 @@ open QM.Types
 
 /-- `is_compatible(a, a)` is `true` for every table and every id (fast path), with any fuel ≥ 1. -/
 theorem compat_refl (T : Table) (a fuel : Nat) : isCompatible T (fuel + 1) a a = some true := by
-  simp [isCompatible, checkRel, checkRelV]
+  simp [isCompatible, checkRel, checkRelV, sameContext]
 
 /-- likewise every id overlaps itself — including `never`, which is what the code does
 (`self_id == pattern_id` is tested before the empty-union arm). -/
 theorem overlap_refl (T : Table) (a fuel : Nat) : typesOverlap T (fuel + 1) a a = some true := by
-  simp [typesOverlap, checkRel, checkRelV]
+  simp [typesOverlap, checkRel, checkRelV, sameContext]
 
 example : isCompatible ⟨[.integer], []⟩ 1 0 0 = some true := compat_refl _ _ _
 
@@ -42,11 +42,11 @@ example : isCompatible ⟨[.integer], []⟩ 1 0 0 = some true := compat_refl _ _
 
 /-- verdict of a historical variant in mode ALL -/
 def compatV (vr : Variant) (T : Table) (fuel a b : Nat) : Option Bool :=
-  (checkRelV vr T .all fuel [] [] a b).map (·.1)
+  (checkRelV vr T .all fuel [] {} a b).map (·.1)
 
 /-- verdict of a historical variant in mode ANY -/
 def overlapV (vr : Variant) (T : Table) (fuel a b : Nat) : Option Bool :=
-  (checkRelV vr T .any fuel [] [] a b).map (·.1)
+  (checkRelV vr T .any fuel [] {} a b).map (·.1)
 
 /-- F9: 0 = int, 1 = `(x: int)`, 2 = `P(x: int)`   (x = 2, P = 3, Q = 9) -/
 def tF9 : Table :=
@@ -156,20 +156,20 @@ first-order rank (`rk`) — every value of `a` is a value of `b`. -/
 theorem compat_sound_fo (T : Table) (a b fuel : Nat) (ha : FO T a) (hb : FO T b)
     (h : isCompatible T fuel a b = some true) : ∀ v, inh T [] a v → inh T [] b v := by
   unfold isCompatible at h
-  cases hc : checkRel T .all fuel [] [] a b with
+  cases hc : checkRel T .all fuel [] {} a b with
   | none => simp [hc] at h
   | some p =>
     obtain ⟨r, asm'⟩ := p
     rw [hc] at h
     simp only [Option.map_some, Option.some.injEq] at h
     subst h
-    have := checkRel_good_any T fuel (rk T a + rk T b + 1) [] [] a b ha hb (by omega)
+    have := checkRel_good_any T fuel (rk T a + rk T b + 1) [] {} a b ha hb (by omega)
       (fun p hp => by simp at hp) true asm' hc
     exact fun v hv => this.2 rfl [] [] v hv
 
 /-- the same from an arbitrary set of already-valid assumptions and any stack (the form in which
 the relation is used below a union during narrowing) -/
-theorem checkRel_sound_fo (T : Table) (fuel : Nat) (asm : Asm) (st : List Nat)
+theorem checkRel_sound_fo (T : Table) (fuel : Nat) (asm : Asm) (st : Stk)
     (a b : Nat) (ha : FO T a) (hb : FO T b) (hasm : ∀ p ∈ asm, Valid T p.1 p.2) (asm' : Asm)
     (h : checkRel T .all fuel asm st a b = some (true, asm')) :
     (∀ v, inh T [] a v → inh T [] b v) ∧ ∀ p ∈ asm', Valid T p.1 p.2 := by
@@ -203,7 +203,7 @@ theorem overlap_complete_fo (T : Table) (a b fuel : Nat) (ha : FO T a) (hb : FO 
     (hv : ∃ v, v.wf = true ∧ inh T [] a v ∧ inh T [] b v) : typesOverlap T fuel a b ≠ some false := by
   intro h
   unfold typesOverlap at h
-  cases hc : checkRel T .any fuel [] [] a b with
+  cases hc : checkRel T .any fuel [] {} a b with
   | none => simp [hc] at h
   | some p =>
     obtain ⟨r, asm'⟩ := p
@@ -211,7 +211,7 @@ theorem overlap_complete_fo (T : Table) (a b fuel : Nat) (ha : FO T a) (hb : FO 
     simp only [Option.map_some, Option.some.injEq] at h
     subst h
     obtain ⟨v, hwf, hav, hbv⟩ := hv
-    exact checkRel_any_bad fuel [] [] a b asm' hc ha hb [] [] v hwf ⟨hav, hbv⟩
+    exact checkRel_any_bad fuel [] {} a b asm' hc ha hb [] [] v hwf ⟨hav, hbv⟩
 
 /-- with enough fuel to get an answer at all, the answer is `true` -/
 theorem overlap_complete_fo' (T : Table) (a b fuel : Nat) (ha : FO T a) (hb : FO T b)
@@ -346,8 +346,10 @@ def tR1 : Table :=
 def vR1 : V :=
   .tup (some 2) (.cons (some 3) (.tup (some 2) (.cons (some 3) (.tup (some 4) .nil) .nil)) .nil)
 
-/-- the left-hand `^1` meets an empty right-hand stack and is accepted -/
-theorem R1_accepted : isCompatible tR1 16 4 5 = some true := by decide
+/-- before fd75268 the left-hand `^1` met an empty right-hand stack and was accepted -/
+theorem R1_accepted : compatV { leftCycleOnRightStack := true } tR1 16 4 5 = some true := by decide
+/-- with a stack of its own for the left type the pair is rejected -/
+theorem R1_repaired : isCompatible tR1 16 4 5 = some false := by decide
 theorem R1_closed : Ordered tR1 ∧ Closed tR1 4 ∧ Closed tR1 5 :=
   ⟨by decide, ⟨8, by decide⟩, ⟨8, by decide⟩⟩
 theorem R1_value_left : inh tR1 [] 4 vR1 := ⟨8, by decide⟩
@@ -366,9 +368,128 @@ theorem R1_value_not_right : ¬ inh tR1 [] 5 vR1 := by
   obtain ⟨rfl, _⟩ := hv'
   simp at hn'
 
-/-- **the full soundness statement does not hold for recursive types** -/
-theorem compat_sound_fails_on_recursive_types : ¬ CompatSoundStatement := fun h =>
+/-- the soundness statement for a historical variant of the relation -/
+def CompatSoundStatementV (vr : Variant) : Prop :=
+  ∀ (T : Table) (a b fuel : Nat), Ordered T → Closed T a → Closed T b →
+    compatV vr T fuel a b = some true → ∀ v, inh T [] a v → inh T [] b v
+
+/-- **before fd75268 the full soundness statement did not hold for recursive types** -/
+theorem compat_sound_failed_on_recursive_types_before_R1 :
+    ¬ CompatSoundStatementV { leftCycleOnRightStack := true } := fun h =>
   R1_value_not_right (h tR1 4 5 16 R1_closed.1 R1_closed.2.1 R1_closed.2.2 R1_accepted vR1 R1_value_left)
+
+/-- R1, second part (fixed by fd75268): 0 int, 1 `^1`, 2 bin, 3 `[y: ^1, bin]`, 4 `B(x: ^1)`, 5 `[x: ^1]`,
+6 `U1 = [y: ^, bin] | B(x: ^) | [x: ^] | int`, 7 `int | U1`, 8 `U2 = … | bin` (same first three variants),
+9 `U2 | int`. Two `Cycle`s of equal depth were taken for the same type without resolving them, so the
+shared variant `[y: ^1, bin]` was accepted although its `^1` is `U1` on the left and `U2` on the right.
+(B = 2, x = 3, y = 4) -/
+def tR1b : Table :=
+  ⟨[.integer, .cycle 1, .binary, .tuple 2, .part (some 2) [(3, 1)], .tuple 3, .union [3, 4, 5, 0],
+    .union [0, 6], .union [3, 4, 5, 2], .union [8, 0]],
+   [⟨none, []⟩, ⟨some 1, []⟩, ⟨none, [(some 4, 1), (none, 2)]⟩, ⟨none, [(some 3, 1)]⟩]⟩
+
+/-- `[y: [y: 0, 0x], 0x]` -/
+def vR1b : V :=
+  .tup none (.cons (some 4) (.tup none (.cons (some 4) (.int 0) (.cons none (.bin []) .nil)))
+    (.cons none (.bin []) .nil))
+
+theorem R1b_old_rule_accepts : compatV { cycleSameDepthShortcut := true } tR1b 32 7 9 = some true := by
+  decide
+theorem R1b_value : inhB tR1b 16 [] 7 vR1b = true ∧ inhB tR1b 16 [] 9 vR1b = false := by decide
+theorem R1b_closed : Ordered tR1b ∧ Closed tR1b 7 ∧ Closed tR1b 9 :=
+  ⟨by decide, ⟨8, by decide⟩, ⟨8, by decide⟩⟩
+theorem R1b_repaired : isCompatible tR1b 32 7 9 = some false := by decide
+
+/-- R5 (fixed by 4bee69d): 0 int, 1 bin, 2 `int | bin`, 3 `^1`, 4 `^2`, 5 resource, 6 `^2 | res`,
+7 `@(int / ^1)`, 8 never, 9 `#((^2 | res) -> 7)`, 10 `res | ^2`, 11 `A = #((res | ^) -> 7 ! never)`,
+12 `d = #((res | ^) -> 7 ! int | bin)`. The parameter union 10 is ONE id, but its `^` is `A` in 11 and `d`
+in 12: `d ≤ A` needs `A ≤ d`, which fails on the receive types — the equal-id fast path hid that. -/
+def tR5 : Table :=
+  ⟨[.integer, .binary, .union [0, 1], .cycle 1, .cycle 2, .resource 2, .union [4, 5],
+    .process (some 0) (some 3), .union [], .callable 6 7 8, .union [5, 4], .callable 10 7 8,
+    .callable 10 7 2], [⟨none, []⟩, ⟨some 1, []⟩]⟩
+
+theorem R5_old_rule_accepts : compatV { equalIdsIgnoreContext := true } tR5 48 12 11 = some true := by
+  decide
+/-- …although the premise it needs is refuted by every variant -/
+theorem R5_premise_fails : compatV { equalIdsIgnoreContext := true } tR5 48 11 12 = some false ∧
+    isCompatible tR5 48 11 12 = some false := by decide
+theorem R5_repaired : isCompatible tR5 48 12 11 = some false := by decide
+
+/-- R6 (OPEN — what is left of R1): 0 int, 1 `^2`, 2 `^2 | int`, 3 `[x: (^ | int)]`, 4 `A[[x: (^ | int)]]`,
+5 `Nil`, 6 bin, 7 `^1`, 8 `B[x: bin, y: ^1]`, 9 `'p = Nil | A[[x: (^ | int)]] | B[x: bin, y: ^]`, 10 ref,
+11 `^2 | ref`, 12 `B[x: (^ | ref), y: ^1]`, 13 `'q = Nil | A[[x: (^ | int)]] | B[x: (^ | ref), y: ^]`.
+A resolved `Cycle` goes on with the whole stack: inside `A[[x: (^ | int)]]` the `^` is resolved to `'p` while
+`(^ | int)` is still on the stack, `'p` is "already there" and not pushed again, and the `^`s of its variants
+are then counted from `(^ | int)`: `bin ≤ (^ | ref)` is accepted by an assumption that closes on itself.
+(Nil = 2, A = 3, B = 4, x = 5, y = 6) -/
+def tR6 : Table :=
+  ⟨[.integer, .cycle 2, .union [1, 0], .tuple 2, .tuple 3, .tuple 4, .binary, .cycle 1, .tuple 5,
+    .union [5, 4, 8], .reference, .union [1, 10], .tuple 6, .union [5, 4, 12]],
+   [⟨none, []⟩, ⟨some 1, []⟩, ⟨none, [(some 5, 2)]⟩, ⟨some 3, [(none, 3)]⟩, ⟨some 2, []⟩,
+    ⟨some 4, [(some 5, 6), (some 6, 7)]⟩, ⟨some 4, [(some 5, 11), (some 6, 7)]⟩]⟩
+
+/-- `B[x: 0x, y: Nil]` -/
+def vR6 : V := .tup (some 4) (.cons (some 5) (.bin []) (.cons (some 6) (.tup (some 2) .nil) .nil))
+
+theorem R6_accepted : isCompatible tR6 64 9 13 = some true := by decide
+theorem R6_closed : Ordered tR6 ∧ Closed tR6 9 ∧ Closed tR6 13 :=
+  ⟨by decide, ⟨8, by decide⟩, ⟨8, by decide⟩⟩
+theorem R6_value_left : inh tR6 [] 9 vR6 := ⟨8, by decide⟩
+
+/-- no variant of `'q` is a type of binaries -/
+theorem R6_bin_not_q (bs : List UInt8) : ¬ inh tR6 [] 13 (.bin bs) := by
+  intro h
+  obtain ⟨i, hi, hv⟩ := (inh_union (T := tR6) (t := 13) (ids := [5, 4, 12]) rfl).mp h
+  simp only [List.mem_cons, List.not_mem_nil, or_false] at hi
+  rcases hi with rfl | rfl | rfl
+  · obtain ⟨_, _, hv', _⟩ := (inh_tuple (T := tR6) (t := 5) (id := 4) (info := ⟨some 2, []⟩) rfl rfl).mp hv
+    cases hv'
+  · obtain ⟨_, _, hv', _⟩ :=
+      (inh_tuple (T := tR6) (t := 4) (id := 3) (info := ⟨some 3, [(none, 3)]⟩) rfl rfl).mp hv
+    cases hv'
+  · obtain ⟨_, _, hv', _⟩ :=
+      (inh_tuple (T := tR6) (t := 12) (id := 6) (info := ⟨some 4, [(some 5, 11), (some 6, 7)]⟩) rfl rfl).mp hv
+    cases hv'
+
+theorem R6_value_not_right : ¬ inh tR6 [] 13 vR6 := by
+  intro h
+  obtain ⟨i, hi, hv⟩ := (inh_union (T := tR6) (t := 13) (ids := [5, 4, 12]) rfl).mp h
+  simp only [List.mem_cons, List.not_mem_nil, or_false] at hi
+  rcases hi with rfl | rfl | rfl
+  · obtain ⟨_, _, hv', hn, _⟩ :=
+      (inh_tuple (T := tR6) (t := 5) (id := 4) (info := ⟨some 2, []⟩) rfl rfl).mp hv
+    simp only [vR6, V.tup.injEq] at hv'
+    obtain ⟨rfl, _⟩ := hv'
+    simp at hn
+  · obtain ⟨_, _, hv', hn, _⟩ :=
+      (inh_tuple (T := tR6) (t := 4) (id := 3) (info := ⟨some 3, [(none, 3)]⟩) rfl rfl).mp hv
+    simp only [vR6, V.tup.injEq] at hv'
+    obtain ⟨rfl, _⟩ := hv'
+    simp at hn
+  · obtain ⟨_, _, hv', _, hf⟩ :=
+      (inh_tuple (T := tR6) (t := 12) (id := 6) (info := ⟨some 4, [(some 5, 11), (some 6, 7)]⟩) rfl rfl).mp hv
+    simp only [vR6, V.tup.injEq] at hv'
+    obtain ⟨_, rfl⟩ := hv'
+    simp only [VFields.toList] at hf
+    cases hf with
+    | cons _ hx _ =>
+      -- the field `x`: a binary in `^2 | ref` below `'q`
+      obtain ⟨j, hj, hxv⟩ := (inh_union (T := tR6) (t := 11) (ids := [1, 10]) rfl).mp hx
+      simp only [List.mem_cons, List.not_mem_nil, or_false] at hj
+      rcases hj with rfl | rfl
+      · obtain ⟨id, hr, hid⟩ := (inh_cycle (T := tR6) (t := 1) (d := 2) rfl).mp hxv
+        simp only [resolveCycle] at hr
+        simp at hr
+        subst hr
+        exact R6_bin_not_q [] hid
+      · obtain ⟨_, hr⟩ := (inh_reference (T := tR6) (t := 10) rfl).mp hxv
+        cases hr
+
+/-- **the full soundness statement does not hold of the code as it is** (recursive types with a
+back-reference below a nested union; the first-order theorem `compat_sound_fo` is unaffected) -/
+theorem compat_sound_fails_on_recursive_types : ¬ CompatSoundStatement := fun h =>
+  R6_value_not_right (h tR6 9 13 64 R6_closed.1 R6_closed.2.1 R6_closed.2.2 R6_accepted vR6 R6_value_left)
 
 /-- R2: 0 int, 1 never, 2 `@(never / int)`, 3 `@(int / int)` — the first is assignable to the
 second, a process declared with type 2 inhabits both, yet they "do not overlap" -/
@@ -393,7 +514,14 @@ unfolding of `'f`. -/
 def tR4 : Table :=
   ⟨[.integer, .cycle 1, .union [], .callable 1 0 2, .callable 3 0 2], [⟨none, []⟩, ⟨some 1, []⟩]⟩
 
-theorem R4_old_rule_no_answer : compatV { callableNoAssumption := true } tR4 64 3 4 = none := by decide
+/-- the relation before the four repairs of the recursive arms -/
+def vrBeforeRecursiveFixes : Variant where
+  callableNoAssumption := true
+  leftCycleOnRightStack := true
+  cycleSameDepthShortcut := true
+  equalIdsIgnoreContext := true
+
+theorem R4_old_rule_no_answer : compatV vrBeforeRecursiveFixes tR4 64 3 4 = none := by decide
 theorem R4_repaired : isCompatible tR4 16 3 4 = some true ∧ isCompatible tR4 16 4 3 = some true := by
   decide
 
